@@ -63,7 +63,7 @@ func newCached(env cacheEnv, d *kit.FaultDB, path int) (cc sqlc.CachedConn, clea
 	}
 	switch path {
 	case 1:
-		conf := cache.CacheConf{{RedisConf: redis.RedisConf{Host: env.addr, Type: redis.NodeType}, Weight: 100}}
+		conf := cache.CacheConf{{RedisConf: redis.RedisConf{Host: env.addr, Type: redis.NodeType, NonBlock: true}, Weight: 100}}
 		cc = sqlc.NewConn(conn, conf)
 	case 2:
 		cc = sqlc.NewConnWithCache(conn, env.node)
@@ -148,24 +148,33 @@ func TestVerifC14CachedEnumerate(t *testing.T) {
 			return
 		}
 		ran++
-		st.Eval()
-		d := kit.NewFaultDB("c14ce")
-		cc, cleanup := newCached(env, d, idx%3)
-		defer cleanup()
-		nest := func(s sqlx.Session) kit.Subject { return cc.WithSession(s) }
-		o := kit.Run(cc, nest, d, p)
-		viol, obs := kit.Check(d, p, o)
-		if len(viol) > 0 {
-			failures++
-			t.Errorf("C14 violated through sqlc.CachedConn (enumerated plan #%d):\n  - %s\n%s", idx, strings.Join(viol, "\n  - "), kit.Render(p, o))
-			return
+		paths := []int{(idx / 12) % 3} // the 12 plans sharing a body go through the same constructor
+		if p.Begin == kit.BeginConnectFail {
+			paths = append(paths, 3)
 		}
-		classifyCached(st, p, o, obs)
+		for _, path := range paths {
+			st.Eval()
+			d := kit.NewFaultDB("c14ce")
+			cc, cleanup := newCached(env, d, path)
+			nest := func(s sqlx.Session) kit.Subject { return cc.WithSession(s) }
+			o := kit.Run(cc, nest, d, p)
+			cleanup()
+			viol, obs := kit.Check(d, p, o)
+			if len(viol) > 0 {
+				failures++
+				t.Errorf("C14 violated through sqlc.CachedConn (enumerated plan #%d, %s):\n  - %s\n%s", idx, cachedPaths[path],
+					strings.Join(viol, "\n  - "), kit.Render(p, o))
+				return
+			}
+			classifyCached(st, p, o, obs)
+		}
 	})
 	if want := kit.EnumCount(nk, maxStmts); total != want {
 		t.Fatalf("enumeration visited %d plans, closed form says %d", total, want)
 	}
-	st.ClassN("enumerated-space-size", total)
+	if shard == 0 {
+		st.ClassN("enumerated-space-size", total)
+	}
 	st.Note("exhaustive sub-space through CachedConn: all %d fault plans for bodies of <= %d statements over kinds %v; this shard %d/%d ran %d",
 		total, maxStmts, kinds, shard, shards, ran)
 }
